@@ -79,11 +79,11 @@ Section Local.
       replace (byte_of x0 =? 157)%N with false by lia. rewrite andb_false_r. reflexivity.
   Qed.
 
-  Lemma lex_str_app : forall f f' s pos tmp start e1 e2 v s' p',
-    lex_str f s pos tmp start e1 = (TLit v, s', p') -> String.length (s ++ X) < f' ->
-    lex_str f' (s ++ X) pos tmp start e2 = (TLit v, s' ++ X, p').
+  Lemma lex_str_app : forall curly f f' s pos tmp start e1 e2 v s' p',
+    lex_str curly f s pos tmp start e1 = (TLit v, s', p') -> String.length (s ++ X) < f' ->
+    lex_str curly f' (s ++ X) pos tmp start e2 = (TLit v, s' ++ X, p').
   Proof.
-    induction f as [|f IH]; intros f' s pos tmp start e1 e2 v s' p' H Hf; [discriminate|].
+    intros curly. induction f as [|f IH]; intros f' s pos tmp start e1 e2 v s' p' H Hf; [discriminate|].
     destruct f' as [|f']; [lia|]. rewrite lex_str_S in H. rewrite lex_str_S.
     destruct s as [|c r]; [discriminate|]. cbn [append String.length] in *.
     destruct (byte_of c =? 92)%N.
@@ -99,8 +99,8 @@ Section Local.
       + cbv zeta in *. destruct (next_is_ws_or_end r) eqn:En; [|discriminate].
         injection H as <- <- <-. rewrite (nwe_app r En). reflexivity.
       + change (String c (r ++ X)) with (String c r ++ X). rewrite starts_rdq_app.
-        destruct (starts_rdq (String c r)) eqn:Er.
-        * cbv zeta in *. rewrite str_drop_app by (apply starts_rdq_len; exact Er).
+        destruct (curly && starts_rdq (String c r)) eqn:Er'.
+        * apply andb_prop in Er'. destruct Er' as [_ Er]. cbv zeta in *. rewrite str_drop_app by (apply starts_rdq_len; exact Er).
           destruct (next_is_ws_or_end (str_drop 3 (String c r))) eqn:En; [|discriminate].
           injection H as <- <- <-. rewrite (nwe_app _ En). reflexivity.
         * eapply IH; [exact H|lia].
@@ -282,20 +282,20 @@ Section Local.
     { cbn [append skip_ws]. rewrite K5. reflexivity. }
     rewrite Ews'. cbn [Nat.ltb Nat.leb]. cbn [append].
     destruct (byte_of c =? 34)%N.
-    { destruct (lex_str (S (String.length r)) r (S p) "" p nA) as [[t0 rest] pos] eqn:Es.
+    { destruct (lex_str false (S (String.length r)) r (S p) "" p nA) as [[t0 rest] pos] eqn:Es.
       intros H Hf _. injection H as <- <-. cbn [lrest lpos].
-      pose proof (lex_str_kind (S (String.length r)) r (S p) "" p nA) as Hk. rewrite Es in Hk. cbn [fst] in Hk.
+      pose proof (lex_str_kind false (S (String.length r)) r (S p) "" p nA) as Hk. rewrite Es in Hk. cbn [fst] in Hk.
       destruct t0; try discriminate.
-      rewrite (lex_str_app _ (S (String.length (r ++ X))) _ _ _ _ _ nB _ _ _ Es) by lia. reflexivity. }
+      rewrite (lex_str_app _ _ (S (String.length (r ++ X))) _ _ _ _ _ nB _ _ _ Es) by lia. reflexivity. }
     change (String c (r ++ X)) with (String c r ++ X). rewrite starts_ldq_app.
     destruct (starts_ldq (String c r)) eqn:El.
     { rewrite str_drop_app by (apply starts_ldq_len; exact El).
-      destruct (lex_str (S (String.length (str_drop 3 (String c r)))) (str_drop 3 (String c r)) (p + 3) "" p nA)
+      destruct (lex_str true (S (String.length (str_drop 3 (String c r)))) (str_drop 3 (String c r)) (p + 3) "" p nA)
         as [[t0 rest] pos] eqn:Es.
       intros H Hf _. injection H as <- <-. cbn [lrest lpos].
-      pose proof (lex_str_kind (S (String.length (str_drop 3 (String c r)))) (str_drop 3 (String c r)) (p + 3) "" p nA) as Hk.
+      pose proof (lex_str_kind true (S (String.length (str_drop 3 (String c r)))) (str_drop 3 (String c r)) (p + 3) "" p nA) as Hk.
       rewrite Es in Hk. cbn [fst] in Hk. destruct t0; try discriminate.
-      rewrite (lex_str_app _ (S (String.length (str_drop 3 (String c r) ++ X))) _ _ _ _ _ nB _ _ _ Es) by lia.
+      rewrite (lex_str_app _ _ (S (String.length (str_drop 3 (String c r) ++ X))) _ _ _ _ _ nB _ _ _ Es) by lia.
       reflexivity. }
     destruct (byte_of c =? 124)%N.
     { destruct (lex_bits r (S p) bvb_empty nA) as [[t0 rest] pos] eqn:Es.
